@@ -4,6 +4,7 @@ package main
 // formatting. Everything else is executed from its real SSA body.
 
 import (
+	"math"
 	"fmt"
 	"go/types"
 	"os"
@@ -657,6 +658,28 @@ func init() {
 		"internal/godebug.(*Setting).IncNonDefault":  mNop,
 		"time.Now":                                   func(in *Interp, fn *ssa.Function, a []Value) Value { return in.zeroResults(fn) },
 		"time.Since":                                 func(in *Interp, fn *ssa.Function, a []Value) Value { return in.i64(0) },
+		// IEEE-754 bit casts of CONCRETE floats (math's bodies use unsafe pointer casts); a symbolic integer
+		// argument stays unsupported
+		"math.Float64bits": func(in *Interp, fn *ssa.Function, a []Value) Value {
+			return in.tb.Const(64, math.Float64bits(float64(a[0].(FloatV))))
+		},
+		"math.Float32bits": func(in *Interp, fn *ssa.Function, a []Value) Value {
+			return in.tb.Const(32, uint64(math.Float32bits(float32(a[0].(FloatV)))))
+		},
+		"math.Float64frombits": func(in *Interp, fn *ssa.Function, a []Value) Value {
+			t := a[0].(*Term)
+			if !t.IsConst() {
+				panic(unsupported("math.Float64frombits of a symbolic value"))
+			}
+			return FloatV(math.Float64frombits(t.val))
+		},
+		"math.Float32frombits": func(in *Interp, fn *ssa.Function, a []Value) Value {
+			t := a[0].(*Term)
+			if !t.IsConst() {
+				panic(unsupported("math.Float32frombits of a symbolic value"))
+			}
+			return FloatV(float64(math.Float32frombits(uint32(t.val))))
+		},
 		// environment assumption: the process's local time zone is UTC (initLocal reads $TZ and /etc/localtime;
 		// an empty Location is UTC by time's own rules). The native replay runs with TZ=UTC.
 		"time.initLocal": mNop,
